@@ -1,6 +1,7 @@
 import QbeeModel.Model.Util
 import QbeeModel.Model.Print
 import QbeeModel.Model.NumFmt
+import QbeeModel.Model.Data
 /-
   Line-protocol driver for the executable models.  One request per line, one
   answer per line.  Unknown or malformed requests answer `bad-op`; the models
@@ -27,6 +28,59 @@ def parseArgs : List String → Option (List Print.Arg)
   | "N" :: t :: r => do let s ← decStr t; let rest ← parseArgs r; pure (.val (.num s) :: rest)
   | "S" :: t :: r => do let s ← decStr t; let rest ← parseArgs r; pure (.val (.str s) :: rest)
   | _ => none
+
+/-- DATA items: `E` | `S <cp>` -/
+def takeDItems : Nat → List String → Option (List Data.DItem × List String)
+  | 0, r => some ([], r)
+  | n + 1, "E" :: r => do let (its, r') ← takeDItems n r; pure (.empty :: its, r')
+  | n + 1, "S" :: t :: r => do let s ← decStr t; let (its, r') ← takeDItems n r; pure (.str s :: its, r')
+  | _, _ => none
+
+def encDItems (its : List Data.DItem) : String :=
+  " ".intercalate (toString its.length :: its.map fun
+    | .empty => "E"
+    | .str s => "S " ++ encStr s)
+
+/-- events: `L <cp>` | `D <n> items…` -/
+partial def parseEvs : List String → Option (List Data.Ev)
+  | [] => some []
+  | "L" :: t :: r => do let s ← decStr t; let rest ← parseEvs r; pure (.label s.toStr :: rest)
+  | "D" :: n :: r => do
+      let n ← n.toNat?
+      let (its, r') ← takeDItems n r
+      let rest ← parseEvs r'
+      pure (.data its :: rest)
+  | _ => none
+
+def takeParts : Nat → List String → Option (List (List Data.DItem) × List String)
+  | 0, r => some ([], r)
+  | n + 1, k :: r => do
+      let k ← k.toNat?
+      let (its, r') ← takeDItems k r
+      let (ps, r'') ← takeParts n r'
+      pure (its :: ps, r'')
+  | _, _ => none
+
+/-- READ/RESTORE ops on a data section: `R <ty>` | `T <int>` -/
+def runReads (data : List (List Data.DItem)) : Data.Cur → List String → Option (List String)
+  | _, [] => some []
+  | c, "R" :: ty :: r => do
+      let ty ← ty.toNat?
+      match Data.readRaw data c with
+      | none => do let rest ← runReads data c r; pure ("out" :: rest)
+      | some (it, c') =>
+        match Data.convert ty it with
+        | .badType => do let rest ← runReads data c r; pure ("bad" :: rest)
+        | .range => do let rest ← runReads data c r; pure ("range" :: rest)
+        | .gray => do let rest ← runReads data c' r; pure ("gray" :: rest)
+        | .int v => do let rest ← runReads data c' r; pure (s!"I{v}" :: rest)
+        | .str s => do let rest ← runReads data c' r; pure (("S" ++ encStr s) :: rest)
+        | .flt s => do let rest ← runReads data c' r; pure (("F" ++ encStr s) :: rest)
+  | _, "T" :: i :: r => do
+      let i ← i.toInt?
+      let rest ← runReads data (Data.restore i) r
+      pure ("ok" :: rest)
+  | _, _ => none
 
 def handle (toks : List String) : String :=
   match toks with
@@ -79,6 +133,36 @@ def handle (toks : List String) : String :=
       | .flt tok => "flt " ++ encStr tok
       | .raises => "raises"
       | .gray => "gray"
+    | none => "bad-op"
+  | ["pdata", t] =>
+    match decStr t with
+    | some s => match Data.parseData s with
+      | none => "none"
+      | some its => encDItems its
+    | none => "bad-op"
+  | "group" :: r =>
+    match parseEvs r with
+    | some evs =>
+      let g := Data.groupData evs
+      " ".intercalate (toString g.length :: g.map fun (k, its) =>
+        (match k with | none => "*" | some l => encStr l.toList) ++ " " ++ encDItems its)
+    | none => "bad-op"
+  | "lidx" :: l :: r =>
+    match decStr l, parseEvs r with
+    | some l, some evs =>
+      match Data.labelIndex (Data.groupData evs) l.toStr with
+      | some i => toString i
+      | none => "none"
+    | _, _ => "bad-op"
+  | "reads" :: n :: r =>
+    match n.toNat? with
+    | some n =>
+      match takeParts n r with
+      | some (data, ops) =>
+        match runReads data ⟨0, 0⟩ ops with
+        | some out => " ".intercalate out
+        | none => "bad-op"
+      | none => "bad-op"
     | none => "bad-op"
   | _ => "bad-op"
 
